@@ -245,7 +245,9 @@ func (m *urlModule) createURLSearchParamsPrototype() *goja.Object {
 		u := toUrlSearchParams(m.r, call.This)
 
 		if fn, ok := goja.AssertFunction(call.Argument(0)); ok {
-			for _, pair := range u.searchParams {
+			// the list is walked by position, as it is at each step: the callback may change it
+			for i := 0; i < len(u.searchParams); i++ {
+				pair := u.searchParams[i]
 				// value, name, searchParams
 				_, err := fn(
 					goja.Undefined(), // not nil: a native function as callback dereferences its this
